@@ -614,9 +614,17 @@ func (g *gen) stmt(c gctx, d int, bodyLevel bool) *stm {
 		sc.inBrk = true
 		l := fnStms(fns)
 		n := g.r.Intn(4)
+		if g.oneFault && !g.used && g.r.Intn(2) == 0 {
+			n = g.r.Intn(3) + 2
+		}
 		def := false
 		for i := 0; i < n; i++ {
-			if !def && g.r.Intn(4) == 0 {
+			dup := def && ((g.wild && g.r.Intn(5) == 0) || (g.oneFault && !g.used && g.r.Intn(2) == 0))
+			if (!def && g.r.Intn(4) == 0) || dup {
+				if dup {
+					g.used = true
+					l = append(l, &stm{k: "Expr", e: 6})
+				}
 				def = true
 				g.kw("default")
 			} else {
@@ -743,12 +751,15 @@ func render(r *rand.Rand, ts []tok, fancy bool) string {
 	var b strings.Builder
 	needNL := false
 	for i, t := range ts {
-		if fancy && t.optSC && r.Intn(4) == 0 {
+		// otto does not insert a semicolon after a keyword used as a property name (a.if) nor after a
+		// regular-expression literal (recorded C03-side defects): keep the explicit ';' there
+		asiSafe := !(i > 0 && ((ts[i-1].k == tkIdent && kwProp[ts[i-1].s]) || ts[i-1].k == tkRegex))
+		if fancy && t.optSC && asiSafe && r.Intn(4) == 0 {
 			if i+1 == len(ts) || ts[i+1].s == "}" {
 				continue
 			}
 			nx := ts[i+1]
-			if !nx.noNL && !(i > 0 && ((ts[i-1].k == tkIdent && kwProp[ts[i-1].s]) || ts[i-1].k == tkRegex)) && (stmtStart[nx.s] || (nx.k == tkIdent && !strings.HasPrefix(nx.s, "\\"))) {
+			if !nx.noNL && (stmtStart[nx.s] || (nx.k == tkIdent && !strings.HasPrefix(nx.s, "\\"))) {
 				needNL = true
 				continue
 			}
